@@ -62,6 +62,11 @@ func runC06(c *Case) {
 	builtin := variant == 5
 	notNullA := r.Intn(3) == 0
 	explicitTime := r.Bool()
+	if cacheOn && epn == 4096 {
+		// the few cache-on cases whose signature is not the known finding's get the NOT NULL column
+		// and explicit write times, where objects shared through the cache have something to show
+		notNullA, explicitTime = true, true
+	}
 	sigp := "C06:"
 	if cacheOn && epn < 4096 {
 		sigp = "C06:cache-on-multilevel:"
@@ -159,9 +164,10 @@ func runC06(c *Case) {
 	rangeScans := 0
 
 	// both runs one statement on both tables and compares outcome classes
+	holdTime := false
 	both := func(s c06stmt) (string, bool) {
 		stmtNo++
-		if explicitTime && !inTx {
+		if explicitTime && !inTx && !holdTime {
 			if r.Intn(4) != 0 { // non-decreasing: sometimes equal to the previous one
 				tsec++
 			}
@@ -441,6 +447,17 @@ func runC06(c *Case) {
 	for step := 0; step < steps && c.Res.Status != "violated"; step++ {
 		x := r.Intn(100)
 		switch {
+		case x < 3 && notNullA && !inTx:
+			// three statements at one write time: two rows are written, then one UPDATE changes the
+			// first and fails NOT NULL on the second - the statement fails as a whole
+			k1 := int64(500000 + 2*step)
+			both(c06stmt{"insert into %T values (?,?,?)", []interface{}{k1, "p", "q"}})
+			holdTime = true
+			both(c06stmt{"insert into %T values (?,?,?)", []interface{}{k1 + 1, "p", nil}})
+			both(c06stmt{"update %T set a = b where k >= ? and k <= ?", []interface{}{k1, k1 + 1}})
+			holdTime = false
+			c.Count("failing_multi_row_updates_at_the_rows_write_time", 1)
+			fullCompare()
 		case x < 45:
 			both(genWrite(inTx))
 		case x < 80:
@@ -468,6 +485,13 @@ func runC06(c *Case) {
 			if err := conn.Exec("drop table " + vt); err != nil {
 				fail("drop", "drop failed: "+err.Error())
 				break
+			}
+			if !builtin && r.Bool() {
+				// entries_per_node only matters for an empty tree: re-opened with another (or no)
+				// value the table behaves the same
+				spec.EPN = []int{0, 4096, 64, 2}[r.Intn(4)]
+				prog = append(prog, "-- now "+spec.SQL())
+				c.Count("reopens_with_other_entries_per_node", 1)
 			}
 			if err := conn.Create(spec); err != nil {
 				fail("reopen", "re-create on the same prefix failed: "+err.Error())
